@@ -36,6 +36,54 @@ Proof.
   - rewrite H0. cbn. eapply IH; eassumption.
 Qed.
 
+(* ---------- arrays: the slots of a declared array hold its element kind ---------- *)
+Lemma arr_ok_pos G b n k : arr_ok G b n k = true -> (0 < n)%nat.
+Proof. unfold arr_ok. intro H. apply andb_prop in H as [Hn _]. apply Nat.ltb_lt in Hn. exact Hn. Qed.
+Lemma arr_ok_nth G b n k j : arr_ok G b n k = true -> (j < n)%nat -> nth_error G (b + j) = Some (TInt k).
+Proof.
+  unfold arr_ok. intros H Hj. apply andb_prop in H as [_ H].
+  assert (Hin : In j (seq 0 n)) by (apply in_seq; lia).
+  pose proof (proj1 (forallb_forall _ _) H j Hin) as Hjk. cbn beta in Hjk.
+  destruct (nth_error G (b + j)) as [[|k']|]; try discriminate. apply ik_eqb_eq in Hjk. subst k'. reflexivity.
+Qed.
+Lemma arr_ok_base G b n k : arr_ok G b n k = true -> var_kind G b = Some k.
+Proof.
+  intro H. pose proof (arr_ok_nth G b n k 0%nat H (arr_ok_pos G b n k H)) as H0.
+  rewrite Nat.add_0_r in H0. unfold var_kind. rewrite H0. reflexivity.
+Qed.
+Lemma arr_ok_slot G s b n k j : store_ok G s = true -> arr_ok G b n k = true -> (j < n)%nat ->
+  exists z, nth_error s (b + j) = Some (VInt k z) /\ in_range k z = true.
+Proof.
+  intros Hs Ha Hj. destruct (store_ok_nth G s (b + j) (TInt k) Hs (arr_ok_nth G b n k j Ha Hj)) as [v [Hv Hok]].
+  destruct v as [|k' z]; [discriminate|]. cbn in Hok. apply andb_prop in Hok as [Hk Hr]. apply ik_eqb_eq in Hk. subst k'.
+  exists z. split; [exact Hv | exact Hr].
+Qed.
+(* the index computation: a slot of the array, or IndexOutOfBounds *)
+Lemma int_value_int k z : exists z', int_value (VInt k z) = Ok z' /\ (k <> KULInt -> z' = z).
+Proof. destruct k; cbn; eexists; (split; [reflexivity|]); intro Hk; try reflexivity. contradiction. Qed.
+Lemma idx_slot_inv b lo n iv x : idx_slot b lo n iv = Ok x ->
+  exists z, int_value iv = Ok z /\ lo <= z <= lo + Z.of_nat n - 1 /\ x = (b + Z.to_nat (z - lo))%nat /\ (Z.to_nat (z - lo) < n)%nat.
+Proof.
+  unfold idx_slot. destruct (int_value iv) as [z| |]; cbn [bind]; try discriminate.
+  destruct ((z <? lo) || (lo + Z.of_nat n - 1 <? z)) eqn:E; [discriminate|]. intro H. injection H as <-.
+  apply orb_false_iff in E as [E1 E2]. apply Z.ltb_ge in E1, E2.
+  exists z. split; [reflexivity|]. split; [lia|]. split; [reflexivity | lia].
+Qed.
+Lemma idx_slot_oob b lo n iv z : int_value iv = Ok z -> z < lo \/ lo + Z.of_nat n - 1 < z -> idx_slot b lo n iv = Fault FIndexOOB.
+Proof.
+  intros Hi Hz. unfold idx_slot. rewrite Hi. cbn [bind].
+  replace ((z <? lo) || (lo + Z.of_nat n - 1 <? z)) with true; [reflexivity|].
+  symmetry. apply orb_true_iff. destruct Hz as [Hz|Hz]; [left | right]; apply Z.ltb_lt; exact Hz.
+Qed.
+Lemma idx_slot_benign b lo n iv (P : nat -> Prop) : (exists k z, iv = VInt k z) ->
+  (forall j, (j < n)%nat -> P (b + j)%nat) -> benign (idx_slot b lo n iv) P.
+Proof.
+  intros [k [z ->]] HP. destruct (idx_slot b lo n (VInt k z)) as [x|f|] eqn:E; cbn [benign]; [| |exact I].
+  - destruct (idx_slot_inv _ _ _ _ _ E) as [z' [_ [_ [-> Hj]]]]. apply HP. exact Hj.
+  - unfold idx_slot in E. destruct (int_value_int k z) as [z' [Ez' _]]. rewrite Ez' in E. cbn [bind] in E.
+    destruct ((z' <? lo) || (lo + Z.of_nat n - 1 <? z')); [injection E as <-; reflexivity | discriminate].
+Qed.
+
 (* ---------- what a well-typed integer expression evaluates to ---------- *)
 (* signed context: some signed kind; unsigned context: an unsigned kind, or (for an expression
    made of untyped literals only) a non-negative DINT *)
@@ -70,7 +118,7 @@ Section Sound.
   Lemma tint_sound G s k : store_ok G s = true -> forall e, tint strict G k e = true ->
     benign (eval o s e) (dyn_int strict k e).
   Proof.
-    intros Hs. induction e as [u v|x|op e1 IH1|op l IHl r IHr]; intro Ht.
+    intros Hs e. revert k. induction e as [u v|x|op e1 IH1|op l IHl r IHr|b lo n ki i IHi]; intros k Ht.
     - (* literal *)
       cbn [eval benign]. cbn [tint] in Ht. destruct u.
       + destruct v as [|k' z]; [discriminate|]. destruct k'; try discriminate.
@@ -136,6 +184,16 @@ Section Sound.
         * destruct (a <? b); [reflexivity | apply from_wide_benign; apply Hres].
         * destruct (b =? 0); [reflexivity | apply from_wide_benign; apply Hres].
         * destruct (b =? 0); [reflexivity | apply from_wide_benign; apply Hres].
+    - (* array element: the index is an integer, the slot read lies inside the array and holds the element kind *)
+      cbn [tint] in Ht. apply andb_prop in Ht as [Ht Hti]. apply andb_prop in Ht as [Ht _]. apply andb_prop in Ht as [Harr _].
+      cbn [eval]. eapply benign_bind; [apply IHi; exact Hti|].
+      intros iv [k' [z [-> _]]].
+      eapply benign_bind; [apply (idx_slot_benign b lo n (VInt k' z) (fun x => exists j, (j < n)%nat /\ x = (b + j)%nat));
+                           [exists k', z; reflexivity | intros j Hj; exists j; split; [exact Hj | reflexivity]]|].
+      intros x [j [Hj ->]]. destruct (arr_ok_slot G s b n k j Hs Harr Hj) as [ze [Hnth Hr]].
+      unfold rd. rewrite Hnth. cbn [benign].
+      exists k, ze. split; [reflexivity|]. split; [exact Hr|]. split; [reflexivity|].
+      destruct (is_signed k) eqn:Ek; [reflexivity | left; reflexivity].
   Qed.
 
   Definition is_vbool (v : value) : Prop := exists b, v = VBool b.
@@ -171,7 +229,7 @@ Section Sound.
   Lemma tbool_sound G s : store_ok G s = true -> forall e, tbool strict G e = true ->
     benign (eval o s e) is_vbool.
   Proof.
-    intros Hs. induction e as [u v|x|op e1 IH1|op l IHl r IHr]; intro Ht.
+    intros Hs. induction e as [u v|x|op e1 IH1|op l IHl r IHr|b lo n ki i IHi]; intro Ht; [| | | |discriminate].
     - cbn [tbool] in Ht. destruct u; [discriminate|]. destruct v as [b|]; [|discriminate]. cbn. exists b. reflexivity.
     - cbn [eval tbool] in *. unfold ty_is_bool in Ht. destruct (nth_error G x) as [[|k']|] eqn:Ex; try discriminate.
       destruct (store_ok_nth G s x TBool Hs Ex) as [v [Hv Hok]]. unfold rd. rewrite Hv. cbn.
@@ -383,7 +441,7 @@ Section SoundStmt.
   Lemma step_sound n depth s st il : store_ok G s = true -> tstmt strict G il st = true ->
     (il = true -> depth <> 0%nat) -> sres_ok G depth (step o (eval o) ex n depth s st).
   Proof.
-    intros Hs Ht Hil. destruct st as [x e|c t elifs el|sel brs el|x a b stp body|c body|body c| | |].
+    intros Hs Ht Hil. destruct st as [x e|b0 lo n0 ki i e|c t elifs el|sel brs el|x a b stp body|c body|body c| | |].
     - (* assignment *)
       cbn [tstmt] in Ht. cbn [step]. destruct (nth_error G x) as [[|k]|] eqn:Ex; [| |discriminate].
       + unfold sres_ok. eapply benign_bind; [apply (tbool_sound o strict Hneg G s Hs e Ht)|]. intros v Hv.
@@ -391,6 +449,17 @@ Section SoundStmt.
       + unfold sres_ok. eapply benign_bind; [apply (tint_sound o strict Hneg G s k Hs e Ht)|]. intros v [k' [z [-> [Hr [Hx' _]]]]].
         eapply benign_bind; [apply (write_sound s x (VInt k' z) (TInt k) Hs Ex); exists k', z; split; [reflexivity | split; [exact Hr | exact Hx']]|].
         intros s' Hs'. cbn. split; [exact Hs' | exact I].
+    - (* element assignment: the value, then the index; the slot written is one of the array's *)
+      cbn [tstmt] in Ht. cbn [step]. destruct (var_kind G b0) as [k|] eqn:Ek; [|discriminate].
+      apply andb_prop in Ht as [Ht Hte]. apply andb_prop in Ht as [Ht Hti]. apply andb_prop in Ht as [Ht _]. apply andb_prop in Ht as [Harr _].
+      unfold sres_ok. eapply benign_bind; [apply (tint_sound o strict Hneg G s k Hs e Hte)|]. intros v [k' [z [-> [Hr [Hx' _]]]]].
+      eapply benign_bind; [apply (tint_sound o strict Hneg G s ki Hs i Hti)|]. intros iv [ki' [zi [-> _]]].
+      eapply benign_bind; [apply (idx_slot_benign b0 lo n0 (VInt ki' zi) (fun x => exists j, (j < n0)%nat /\ x = (b0 + j)%nat));
+                           [exists ki', zi; reflexivity | intros j Hj; exists j; split; [exact Hj | reflexivity]]|].
+      intros x [j [Hj ->]].
+      eapply benign_bind; [apply (write_sound s (b0 + j)%nat (VInt k' z) (TInt k) Hs (arr_ok_nth G b0 n0 k j Harr Hj));
+                           exists k', z; split; [reflexivity | split; [exact Hr | exact Hx']]|].
+      intros s' Hs'. cbn. split; [exact Hs' | exact I].
     - (* IF *)
       rewrite tstmt_if in Ht. apply andb_prop in Ht as [Ht Hel]. apply andb_prop in Ht as [Ht Helifs]. apply andb_prop in Ht as [Hc Hthen].
       cbn [step]. unfold sres_ok. eapply benign_bind; [apply (eval_bool_sound o strict Hneg G s c Hs Hc)|]. intros bb _.
